@@ -162,18 +162,42 @@ impl CompetitionReal {
         let mut rp = Rng::derive(seed, run, "plan");
         let n = rp.usize(2, 9);
         let mut steps = Vec::new();
+        let mut pos = [0u32; 3];
         for _ in 0..n {
             match rp.below(10) {
                 0 => steps.push(RStep::Clock(rp.range_i64(0, duration / 2 + 5))),
                 1 if cfg.faults => steps.push(RStep::Close { user: rp.below(3) as u8 }),
-                _ => steps.push(RStep::Order {
-                    user: rp.below(3) as u8,
-                    increase: rp.chance(7, 10),
-                    size_usd: *rp.pick(&[1u32, 10, 100, 100, 250, 500, 1000, 2000]) + rp.below(3) as u32,
-                    dt: *rp.pick(&[0i64, 0, 1, 3, 10, 40]),
-                    exec_delay: *rp.pick(&[0i64, 0, 1, 5]),
-                    late: cfg.faults && rp.chance(1, 8),
-                }),
+                _ => {
+                    let user = rp.below(3) as u8;
+                    let u = user as usize;
+                    // mostly decrease only what was (probably) opened before, by at most its size
+                    let increase = if pos[u] > 0 { rp.chance(1, 2) } else { rp.chance(19, 20) };
+                    let size_usd = if increase {
+                        *rp.pick(&[1u32, 10, 100, 100, 250, 500, 1000, 2000]) + rp.below(3) as u32
+                    } else if pos[u] == 0 {
+                        10
+                    } else {
+                        match rp.below(4) {
+                            0 => pos[u],
+                            1 => (pos[u] / 2).max(1),
+                            2 => rp.range(1, pos[u] as u64) as u32,
+                            _ => pos[u] + 1,
+                        }
+                    };
+                    if increase {
+                        pos[u] += size_usd;
+                    } else {
+                        pos[u] = pos[u].saturating_sub(size_usd);
+                    }
+                    steps.push(RStep::Order {
+                        user,
+                        increase,
+                        size_usd,
+                        dt: *rp.pick(&[0i64, 0, 1, 3, 10, duration / 3]),
+                        exec_delay: *rp.pick(&[0i64, 0, 1, 5]),
+                        late: cfg.faults && rp.chance(1, 8),
+                    })
+                }
             }
         }
         (cfg, steps)
@@ -316,6 +340,7 @@ impl<'a> Real<'a> {
         let now = self.w.clock.unix_timestamp;
         let mut ixs = ex::execute_order_tx(&self.w, d, &order, false, 5000, 0).expect("execute tx");
         patch_callback(ixs.last_mut().unwrap(), &d.event_authority, &competition, &participant);
+        let pre = self.w.clone();
         let out = self.w.process_tx(&ixs, &TxOpts::default());
         self.obs.outcome("keeper", "execute_order", &out.class());
         let mut counted = false;
@@ -395,6 +420,13 @@ impl<'a> Real<'a> {
                 }
             } else if !success {
                 self.obs.probe("real_failed_order_callback");
+                // what-if fork: why did the order fail? (diagnostic only)
+                let mut f = pre;
+                if let Some(mut ixs) = ex::execute_order_tx(&f, d, &order, true, 5000, 0) {
+                    patch_callback(ixs.last_mut().unwrap(), &d.event_authority, &competition, &participant);
+                    let o = f.process_tx(&ixs, &TxOpts::default());
+                    self.obs.probe(&format!("real_order_failure_{}_{}", if increase { "inc" } else { "dec" }, o.class()));
+                }
             } else if !self.m.ongoing(now) {
                 self.obs.probe("ignored_after_end");
             } else if volume == 0 {
